@@ -378,8 +378,13 @@ def history_job(job):
         for count in range(1, 9):
             payload = _payload(("ff", "pattern", "markers")[count % 3], 2 * count, count)
             Fshort, _ = conforming(framing, "read", 0xF7, 36000, count, payload)
-            steps = [{"op": "request", "script": [["multi", [[2, Flong[:cut]], [4, Flong]]]], "command": long_cmd},
-                     {"op": "request", "script": [["raw", 1, Fshort]], "command": ("read", 36000, count)}]
+            # the second answer arrives promptly, or late but inside its own time-out (also later than the time-out of the
+            # earlier request would have expired had it not been answered); the earlier request is answered by fragment +
+            # complete frame, or by fragment + exact remainder
+            delay = (1, 1, 13, 15)[(cut + count) % 4]
+            first = [[2, Flong[:cut]], [4, Flong]] if (cut + count) % 3 else [[2, Flong[:cut]], [4, Flong[cut:]]]
+            steps = [{"op": "request", "script": [["multi", first]], "command": long_cmd},
+                     {"op": "request", "script": [["raw", delay, Fshort]], "command": ("read", 36000, count)}]
             case = {"history": True, "transport": transport, "keep": keep, "cut": cut, "count": count}
             acc.case()
             acc.nontrivial("history", transport, keep, cut, count)
